@@ -195,6 +195,7 @@ void EGLPNUM_TYPENAME_ILLutil_EGlpNum_rselect (
 		}
 		else
 		{
+			EGLPNUM_TYPENAME_EGlpNumFreeArray (samplevals);
 			return;
 		}
 	}
